@@ -1,6 +1,7 @@
 import ComposeVerif.Model.Dotenv
 import ComposeVerif.Spec.Dotenv
 import ComposeVerif.Lemmas.Dotenv
+import ComposeVerif.Neg.C18
 /-!
 # C18 — the env-file parser implements the dotenv grammar and never crashes
 
@@ -61,6 +62,93 @@ theorem parse_render_prefix (lookup : Env) (ls : List Line) (hwf : WF ls = true)
   unfold parse evalLines
   have e : (render ls ++ tail).length + 2 = ((render ls ++ tail).length - stmts ls + 1 + 1) + stmts ls := by omega
   rw [e, parseLoop_render lookup ls hwf _ tail []]
+
+
+/-! ## malformed input is an error -/
+
+/-- After ANY well-formed lines, an assignment whose value opens a quote that is never closed before the end
+    of the input (the body is any sequence of ordinary characters, escaped quotes and backslash pairs,
+    possibly ending in a lone backslash) is the error "unterminated quoted value"; the lines before it
+    have been evaluated. -/
+theorem unterminated_err (lookup : Env) (ls : List Line) (hwf : WF ls = true)
+    (indent : Str) (exp : Option Str) (key ws1 : Str) (sep : Sep) (ws2 : Str)
+    (q : Char) (hq : q = '"' ∨ q = '\'') (items : List QItem) (t : Str) (ht : t = [] ∨ t = ['\\'])
+    (hi : nbAll indent = true) (he : expOk exp = true) (hk : validKey key = true) (h1 : nbAll ws1 = true)
+    (h2 : nbAll ws2 = true) (hw : items.all (QItem.wf q) = true) :
+    parse (render ls ++ (indent ++ (renderExp exp ++ (key ++ (ws1 ++ sep.char :: (ws2 ++ q :: (renderItems q items ++ t))))))) lookup =
+      (evalLines lookup ls).andThen (fun m => .err .unterminated m) := by
+  obtain ⟨f, hf⟩ := parse_render_prefix lookup ls hwf
+    (indent ++ (renderExp exp ++ (key ++ (ws1 ++ sep.char :: (ws2 ++ q :: (renderItems q items ++ t))))))
+  rw [hf]
+  congr 1
+  funext m
+  exact parseLoop_unterminated f indent exp key ws1 sep ws2 q hq items t ht m lookup hi he hk h1 h2 hw
+
+example : parse ['K', '=', '"', 'a', '\\', '"'] (fun _ => none) = .err .unterminated [] := by decide
+example : parse ['A', '=', '1', '\n', 'K', '=', '\'', 'a', '\n', 'B', '=', '2'] (fun _ => none) =
+    .err .unterminated [(['A'], ['1'])] := by decide
+
+/-- After ANY well-formed lines, a statement whose key text (characters before the first `=`, `:` or line
+    feed) contains a character that is neither a key rune nor white space is the error "unexpected
+    character"; the lines before it have been evaluated.  (`_partial`: the full-strength statement
+    `InvalidKeyIsError` also covers the empty key and is false — `Neg/C18.lean`.) -/
+theorem invalid_key_err_partial (lookup : Env) (ls : List Line) (hwf : WF ls = true)
+    (indent : Str) (exp : Option Str) (pre : Str) (c : Char) (rest : Str)
+    (hi : nbAll indent = true) (he : expOk exp = true) (hpre : pre.all okChar = true)
+    (hlead : pre.dropWhile isSpaceNB = pre) (hexp : exportKw.isPrefixOf pre = false)
+    (hc : badChar c = true) (hhash : pre ≠ [] ∨ c ≠ '#') :
+    parse (render ls ++ (indent ++ (renderExp exp ++ (pre ++ c :: rest)))) lookup =
+      (evalLines lookup ls).andThen (fun m => .err .unexpectedChar m) := by
+  obtain ⟨f, hf⟩ := parse_render_prefix lookup ls hwf (indent ++ (renderExp exp ++ (pre ++ c :: rest)))
+  rw [hf]
+  congr 1
+  funext m
+  exact parseLoop_badkey f indent exp pre c rest m lookup hi he hpre hlead hexp hc hhash
+
+/-- non-vacuity: `A$B=1` after a valid line -/
+example : badChar '$' = true ∧ ['A'].all okChar = true ∧ exportKw.isPrefixOf ['A'] = false := by decide
+example : parse ['X', '=', '1', '\n', 'A', '$', 'B', '=', '1'] (fun _ => none) = .err .unexpectedChar [(['X'], ['1'])] := by decide
+/-- a key with an inner space or tab is rejected (after the `fix:` commit for tabs) -/
+example : parse ['A', ' ', 'B', '=', '1'] (fun _ => none) = .err .keySpace [] := by decide
+example : parse ['A', '\t', 'B', '=', '1'] (fun _ => none) = .err .keySpace [] := by decide
+/-- a bare key on the last line without a line feed is inherited (after the `fix:` commit) -/
+example : parse ['A', '=', '1', '\n', 'K'] (fun k => if k = ['K'] then some ['v'] else none) =
+    .ok [(['A'], ['1']), (['K'], ['v'])] := by decide
+
+/-! ## escape sequences of double-quoted values -/
+
+/-- text without a backslash is left alone -/
+theorem expandEscapes_plain (s : Str) (h : ∀ c ∈ s, c ≠ '\\') : expandEscapes s = s := by
+  unfold expandEscapes
+  induction s with
+  | nil => rfl
+  | cons c s ih =>
+    have hc : (c == '\\') = false := by simpa using h c (by simp)
+    simp only [expEsc, hc, Bool.false_eq_true, if_false]
+    rw [ih (fun x hx => h x (by simp [hx]))]
+
+/-- the single-character escapes: the table of `escapeSeqRegex` (`\\$` becomes the template escape `$$`) -/
+theorem expandEscapes_simple (c : Char) (x s : Str) (h : simpleEscape c = some x) :
+    expandEscapes ('\\' :: c :: s) = x ++ expandEscapes s := by
+  simp [expandEscapes, expEsc, h]
+
+theorem simpleEscape_table :
+    simpleEscape 'a' = some ['\x07'] ∧ simpleEscape 'b' = some ['\x08'] ∧ simpleEscape 'f' = some ['\x0c'] ∧
+    simpleEscape 'n' = some ['\n'] ∧ simpleEscape 'r' = some ['\r'] ∧ simpleEscape 't' = some ['\t'] ∧
+    simpleEscape 'v' = some ['\x0b'] ∧ simpleEscape '\\' = some ['\\'] ∧ simpleEscape '"' = some ['"'] ∧
+    simpleEscape '$' = some ['$', '$'] ∧ simpleEscape 'x' = none ∧ simpleEscape 'u' = none ∧ simpleEscape '\'' = none := by
+  decide
+
+/-- any other backslash pair is kept as it is -/
+theorem expandEscapes_other (c : Char) (s : Str) (h : simpleEscape c = none) (h0 : c ≠ '0') :
+    expandEscapes ('\\' :: c :: s) = '\\' :: expandEscapes (c :: s) := by
+  have : (c == '0') = false := by simpa using h0
+  simp [expandEscapes, expEsc, h, this]
+
+/-- XSI octal escapes `\\0ddd` (exactly three octal digits, value ≤ 255) -/
+example : expandEscapes ['\\', '0', '1', '2', '3', 'Z'] = ['S', 'Z'] := by decide
+example : expandEscapes ['\\', '0', '1', '2'] = ['\\', '1', '2'] := by decide
+example : expandEscapes ['\\', '0', '7', '7', '7'] = ['\\', '7', '7', '7'] := by decide
 
 /-! ## the result map behaves like a map: later assignments win -/
 
